@@ -181,13 +181,20 @@ Definition send_email_texts (contact_lang : lang) (allowed : list lang) (base : 
 (* an IVR message: text, audio URL ("" = no attachment), language reported in its locale *)
 Record ivr_out := { i_text : text; i_audio : text; i_lang : lang }.
 
-(* SayMsgAction.Execute: text and audio URL resolved separately; skipped when both are empty; the locale names the
-   language of the TEXT *)
+(* SayMsgAction.Execute: text and audio URL resolved separately; the text is evaluated ([ev_text]); skipped when both
+   are empty; the locale names the language of the TEXT, and for a message without text the language of its audio
+   URL (its only attachment) *)
+Definition say_msg_out_gen (ev_text : text -> text) (contact_lang : lang) (allowed : list lang) (base : lang)
+           (txt audio : text) (tr_txt tr_audio : translations) : option ivr_out :=
+  let '(t0, tl) := get_text1 contact_lang allowed base txt tr_txt in
+  let t := ev_text t0 in
+  let '(a, al) := get_text1 contact_lang allowed base audio tr_audio in
+  if text_empty t && text_empty a then None
+  else Some {| i_text := t; i_audio := a; i_lang := if text_empty t then al else tl |}.
+
 Definition say_msg_out (contact_lang : lang) (allowed : list lang) (base : lang)
            (txt audio : text) (tr_txt tr_audio : translations) : option ivr_out :=
-  let '(t, tl) := get_text1 contact_lang allowed base txt tr_txt in
-  let a := fst (get_text1 contact_lang allowed base audio tr_audio) in
-  if text_empty t && text_empty a then None else Some {| i_text := t; i_audio := a; i_lang := tl |}.
+  say_msg_out_gen (fun t => t) contact_lang allowed base txt audio tr_txt tr_audio.
 
 (* PlayAudioAction.Execute: a text-less message; skipped when the URL is empty; the locale names the language of the
    audio URL (the message's only attachment) *)
